@@ -14,6 +14,7 @@ spec/RSysGraph.tla (+ RSysGraph_MC slices, RSysGraphTrace).  Directions:
 Projections are structural: substance lists as they are, reactions of a derived system as the
 indices of the identical objects in the parent, sets sorted, numpy numbers as integers / [n, d].
 """
+import re
 from collections import OrderedDict
 from fractions import Fraction
 
@@ -88,6 +89,52 @@ def _match(objs, pools):
     return out
 
 
+# DOT lexer: undoes exactly the presentation of rsys2dot (default colours name the classes)
+_NODE_RE = re.compile(r'^  "([^"]*)" \[fontcolor=(\w+) label="([^"]*)"\];$')
+_EDGE_RE = re.compile(r'^  "([^"]*)" -> "([^"]*)" \[color=(\w+),fontcolor=(\w+),label="([^"]*)"(?:,penwidth=[^,\]]*)?\];$')
+_RNODE_RE = re.compile(r'^    node \[label="([^"]*)",shape=diamond\]$')
+NODE_CLASS = {"maroon": "depleted", "darkgreen": "accumulated", "black": "other"}
+EDGE_CLASS = {"maroon": "reactant", "darkgreen": "product"}
+
+
+def parse_dot(lines):
+    """list of DOT lines -> {snodes: [...], rnodes: [...], edges: {"a->b": [label, kind]}}"""
+    toks = [ln.rstrip("\n") for ln in lines]
+    if not toks or not toks[0].startswith("digraph ") or not toks[0].endswith("{") or toks[-1] != "}":
+        return _bad("dot frame")
+    snodes, rnodes, edges = [], [], {}
+    i = 1
+    while i < len(toks) - 1:
+        ln = toks[i]
+        m = _NODE_RE.match(ln)
+        if m:
+            if m.group(2) not in NODE_CLASS:
+                return _bad("node colour")
+            snodes.append({"key": m.group(1), "cls": NODE_CLASS[m.group(2)], "label": m.group(3)})
+            i += 1
+            continue
+        m = _EDGE_RE.match(ln)
+        if m:
+            a, b, c1, c2, lbl = m.groups()
+            if c1 != c2 or c1 not in EDGE_CLASS:
+                return _bad("edge colour")
+            key = "%s->%s" % (a, b)
+            if key in edges:
+                return _bad("repeated edge")
+            edges[key] = [lbl, EDGE_CLASS[c1]]
+            i += 1
+            continue
+        if ln == "  {" and i + 3 < len(toks) and toks[i + 3] == "  }":
+            m = _RNODE_RE.match(toks[i + 1])
+            if not m or not toks[i + 2].startswith("    "):
+                return _bad("reaction node block")
+            rnodes.append({"id": toks[i + 2].strip(), "label": m.group(1)})
+            i += 4
+            continue
+        return _bad("unparsed dot line")
+    return _ok(snodes=snodes, rnodes=rnodes, edges=edges)
+
+
 def _ok(**kw):
     o = {"raised": False, "exc": "", "bad": ""}
     o.update(kw)
@@ -124,7 +171,8 @@ class World(object):
 
     # -- steps
     def make(self, h):
-        rxns = [self.Reaction(dict(r["reac"]), dict(r["prod"])) for r in h["rx"]]
+        rxns = [self.Reaction(dict(r["reac"]), dict(r["prod"]), inact_reac=dict(r.get("ireac") or {}),
+                              inact_prod=dict(r.get("iprod") or {})) for r in h["rx"]]
         comp = h.get("comp") or {}
         given, mode = h["given"], h["mode"]
 
@@ -242,6 +290,9 @@ class World(object):
                        eq=sorted([a + 1, b + 1] for a, b in sys_.identify_equilibria()),
                        part={s: sorted(ri + 1 for ri in sys_.substance_participation(s)) for s in names},
                        eff=eff)
+        if kind == "dot":
+            from chempy.util.graph import rsys2dot
+            return parse_dot(rsys2dot(sys_, rref0=arg["rref0"], include_inactive=bool(arg["inact"])))
         if kind == "subset":
             proj, _ = self._subset(i, arg)
             if proj is None:
@@ -355,7 +406,7 @@ def disagreement(h, o, exp):
 
 
 FN = {"graph": "split/categorize_substances/identify_equilibria/substance_participation/per_reaction_effect_on_substance",
-      "subset": "ReactionSystem.subset", "conv": "as_per_substance_array/dict/index/varied",
+      "dot": "chempy.util.graph.rsys2dot", "subset": "ReactionSystem.subset", "conv": "as_per_substance_array/dict/index/varied",
       "bounds": "ReactionSystem.upper_conc_bounds", "yields": "decompose_yields", "add": "ReactionSystem.__add__",
       "eq": "ReactionSystem.__eq__", "concat": "ReactionSystem.concatenate", "shape": "ReactionSystem",
       "Make": "ReactionSystem()", "DoSplit": "ReactionSystem.split", "DoSubset": "ReactionSystem.subset",
@@ -440,8 +491,16 @@ def _rand_rxn(rng, pool):
             else:
                 reac[k] = rng.randint(1, 3)
                 prod[k] = rng.randint(1, 3)
-        if reac and prod and any(reac.get(k, 0) != prod.get(k, 0) for k in ks):
-            return {"reac": reac, "prod": prod}
+        r = {"reac": reac, "prod": prod}
+        net = {k: prod.get(k, 0) - reac.get(k, 0) for k in ks}
+        if rng.random() < 0.15:  # inactive parts
+            k = rng.choice(pool)
+            side = rng.choice(["ireac", "iprod"])
+            r["ireac"], r["iprod"] = {}, {}
+            r[side][k] = rng.randint(1, 2)
+            net[k] = net.get(k, 0) + (r[side][k] if side == "iprod" else -r[side][k])
+        if reac and prod and any(net.values()):
+            return r
 
 
 def _rand_make(rng, with_comp=False):
@@ -526,8 +585,10 @@ def gen_history(arg):
             if (how == "iadd" and i == j) or sys_.nr + w.ws[j - 1].nr > 10:
                 continue
             h = {"op": "DoAdd", "i": i, "j": j, "how": how}
-        elif x < 0.70:
+        elif x < 0.62:
             h = {"op": "Query", "i": i, "kind": "graph", "arg": []}
+        elif x < 0.70:
+            h = {"op": "Query", "i": i, "kind": "dot", "arg": {"inact": rng.random() < 0.5, "rref0": rng.randint(0, 3)}}
         elif x < 0.78:
             if not names:
                 continue
@@ -583,6 +644,10 @@ def run(ctx):
     _slice(ctx, "ctor_" + sfx, None if not q else 1000, ["PickRx", "GenMake"])
     _slice(ctx, "graph_" + sfx, 2500 if q else None, ["PickRx", "GenMake", "GenQuery"])
     t0 = _t(ctx, "ctor+graph", t0)
+    # the reaction graph as an object: rsys2dot output parsed back into nodes/edges (catalog with two
+    # reactions carrying inactive parts; include_inactive True/False); graph queries on the same systems
+    _slice(ctx, "dot_" + sfx, 1500 if q else None, ["PickRx", "GenMake", "GenQuery"])
+    t0 = _t(ctx, "dot", t0)
     _slice(ctx, "subset_" + sfx, 1500 if q else None, ["GenQuery"])
     _slice(ctx, "pair_" + sfx, 2500 if q else None, ["GenQuery2"])
     _slice(ctx, "conv", None, ["GenQuery"])
